@@ -12,7 +12,9 @@ Tie to the source:
      A second, in-process stream compares the session protocol (open modes, refusals on closed / read-only files,
      flush transparency, close, with-exit) call by call.
  Oracle: the property itself on the implementation, without the model: walk recorded at the flush == walk after
-     SIGKILL + reopen (read-only and read-write), on its own seeded kills + the corpus + the disagreeing cases.
+     SIGKILL + reopen (read-only and read-write), on its own seeded kills + the corpus + the disagreeing cases; every
+     run includes writers that hold two File objects on the path (gen_multi_chain) and writers whose end call runs
+     under RLIMIT_FSIZE (gen_fault_chain: checked only when the call returned normally).
 """
 import json
 import os
@@ -1078,16 +1080,25 @@ MANIFEST = {
                   "nothing flushed is lost over any number of kill/reopen cycles; with the open path as coded "
                   "(file created at the named path, no library-version bound that makes libhdf5 mark the file "
                   "persistently as open for write) the reopen after the kill is not refused (refinement theorem), "
-                  "and either condition dropped loses the flushed state in the model. The part that is runtime "
+                  "and either condition dropped loses the flushed state in the model; with several File objects on the "
+                  "path in one process (one shared library file, Pure/FlushMulti.lean) flush() or close() through any "
+                  "of them, others staying open, is durable after every quiet tail, and a close that releases its "
+                  "object without the flush, or a flush that does not reach H5Fflush, loses. The part that is runtime "
                   "truth (libhdf5's H5Fflush, the OS page cache, the superblock mark) is validated "
                   "differentially: seeded child processes run generated histories on real HDF5 files, "
                   "flush/close, SIGKILL themselves, and the reopened file (read-only and read-write) is compared "
-                  "with the walk recorded at the flush and with the model.",
+                  "with the walk recorded at the flush and with the model; writer processes with two File objects on "
+                  "the path (rw+rw, rw+ro; operations, flush points and the end call through either) and end calls "
+                  "issued under a file-size limit (a call that returns has promised, one that raises has not) are "
+                  "part of every run.",
     "level_note": "Partial by nature: the theorems fix the protocol (flush reaches h5py File.flush on the file "
                   "object; close flushes before the h5py close; with-exit closes; the file is created/opened at "
                   "the named path with a non-locking property list); that H5Fflush + the OS make the bytes "
                   "durable is exercised, not proved. After a flush followed by further writes the property "
                   "promises nothing and nothing is claimed (the model loses such writes: C17_unflushed_can_lose). "
+                  "That libhdf5 shares one file structure between File objects of a process is an assumption of the "
+                  "multi-object model, exercised only; a failing H5Fflush is not modelled (size-limit runs are oracle "
+                  "only). "
                   "Trusted: Lean kernel, the two file.py translators, the canonical walk, the child-process harness.",
     "technique": "Lean 4 proof (invariants + induction over statement bodies, event tails and session chains; "
                  "refinement between the model with and without the open path; decidable shape predicates and a "
